@@ -132,7 +132,9 @@ impl<const B: Word> Repr<B> {
             if fract.is_zero() {
                 int
             } else {
-                exponent -= fract_digits as isize;
+                exponent = exponent
+                    .checked_sub(fract_digits as isize)
+                    .ok_or(ParseError::InvalidDigit)?; // the scale is too small for an isize exponent
                 int * UBig::from_word(B).pow(fract_digits) + fract
             }
         } else {
